@@ -40,9 +40,22 @@ SEEDS = {
            "two merged sequences with strictly overlapping notes of the same channel and pitch: the fused note ends at the first end instead of the latest"),
  "C19-a": ("C19", "get_info: parsing of the signature fields and the recomputation of the total bar capacity moved in front of the mid-bar guard; only the remaining capacity stays guarded",
            "a time-signature token different from the current one while the bar is partly filled, followed by a bar token (streams not produced by tokenise)"),
+ "C20-a": ("C20", "key_transpose_mapping maps Key.C_B to Key.C_S instead of Key.B, so every transposition of Cb major lands two semitones too high",
+           "the starting key Cb major (7 flats) and an interval that is not a multiple of 12"),
+ "C05-b": ("C05", "quantise: the open-note bookkeeping stores the note-on's original time instead of its quantised time, so the note's own quantised start stays an admissible end candidate",
+           "a short note just before / straddling a grid point whose note-on rounds up and whose note-off is nearest to that same grid point: the note collapses and is removed although later grid positions exist"),
+ "C02-b": ("C02", "tokenise: the time-signature range guard tests the raw numerator instead of the numerator scaled to eighths, which is what the emitted token carries",
+           "a signature whose raw numerator is in range but whose eighths-scaled numerator is not (9/4 -> tsg_18_08, 2/16 -> tsg_01_08)"),
+ "C16-b": ("C16", "sequences_split_bars: when split returns no piece the placeholder `Sequence()` became the current `sequence`, which in the first round is the caller's own (empty) input object",
+           "an input track without any message (silent / meta-only track): the first bar of that track is built on, and mutates, the caller's object"),
+ "C08-b": ("C08", "split: a note-on sitting exactly on a boundary (remaining capacity 0) is added straight to `next_sequence` instead of the deferred queue, so it is never registered as open in the next round",
+           "one split call with at least two capacities and a note starting exactly on boundary k that still sounds past boundary k+1: it is neither closed nor re-struck there"),
+ "C17-a": ("C17", "equals: the tick comparison moved into the NOTE_ON branch; time and key signatures are compared by value only",
+           "two sequences identical except for the tick of one signature, with no compared event of the channel between the old and the new tick"),
 }
 
 INITIALLY_MISSED = {
+ "C08-b": "missed by the first versions of the C08 rules (Q1 only lost one of its add sites, which is not a violation); the PLACE rule (each message placed exactly once, in the current piece or on the deferred queue, nowhere else) was added",
  "C14-a": "caught from the start by C04 (TS3); C14's own check missed it; VIEW obligations (typestate of the operation's Sequence wrapper) were added to C05-C08, C14, C15, C18",
  "C15-a": "missed by the first versions of C15 and C07 (the keep/skip decisions are unchanged); the nesting-count rule (every note-on is counted, every note-off of an open note uncounted) was added to STACK and C15 now includes the STACK rules",
  "C03-a": "the first version of the C03 check aborted with ANALYSIS-ERROR (exit 2) on the tuple-unpack / update() idioms; the state extraction was generalised and now reports ST1",
